@@ -1,6 +1,104 @@
 import Driver.Util
-open Lean
+import Driver.Run
+import DoitModel.Model.RunData
+open Lean DoitModel.Run
 namespace Driver.P08
-/-- handler for requests with `"model": "c08"` (property-specific monitors / model queries of C08; stub until built) -/
-def handle (_ : Json) : Json := Driver.err "model not implemented"
+/-! Handler for `{"model":"c08", "op": "den" | "data", …}` (protocol: harness/props/c08.py docstring).
+
+`den`:  the run input of `Driver/Run.lean` (`parseInput`) + `"n"` + `"runs": [{"trace","exit","complete"}…]`.
+        Answers the denotation (`denF`, `denClosure`, `denExit`), the hypotheses (`nocalc`, `determined`), and for every
+        run `monC08Den`; for every run after the first `monC08Pair` against the first (the serial reference).
+`data`: `{"main": {"task": {attr: id}, "acts": [[out, err]…]}, "worker": {"task": {…}, "acts": [[out, err]…],
+        "failure": id|null}}` → what `processResultData` leaves on the main side, and the pickled key set. -/
+
+def denStr : Den → String
+  | .ign => "ignore" | .utd => "up-to-date" | .ok => "success" | .bot => "bot"
+  | .fail k => "fail:" ++ Driver.Run.failKindStr k
+
+def optDenJson : Option Den → Json
+  | some d => Json.str (denStr d)
+  | none => Json.null
+
+/-! ### attribute names -/
+
+def fixedAttrs : List (String × Attr) :=
+  [("name", .name), ("values", .values), ("result", .result), ("executed", .executed), ("options", .options),
+   ("task_dep", .taskDep), ("_actions", .actions), ("_action_instances", .actionInstances),
+   ("clean_actions", .cleanActions), ("teardown", .teardown), ("custom_title", .customTitle),
+   ("value_savers", .valueSavers), ("uptodate", .uptodate)]
+
+/-- keys of the request's task object, in the order given; unknown names are `otherData k` by position -/
+def attrOfKey (others : List String) (k : String) : Attr :=
+  match fixedAttrs.lookup k with
+  | some a => a
+  | none => .otherData (others.idxOf k)
+
+def objKeys (j : Json) : List String :=
+  match j with
+  | .obj kvs => kvs.toList.map (·.1)
+  | _ => []
+
+def recOf (j : Json) (others : List String) : TaskRec := fun a =>
+  match (objKeys j).find? (fun k => attrOfKey others k == a) with
+  | some k => jnat j k
+  | none => 0
+
+def actsOf (j : Json) : List ActOut :=
+  (jarr j "acts").map fun x => match asArr x with
+    | [o, e] => { out := asNat o, err := asNat e }
+    | _ => { out := 0, err := 0 }
+
+def actsJson (as : List ActOut) : Json := mkArr (as.map fun a => mkArr [toJson a.out, toJson a.err])
+
+def handleData (j : Json) : Json :=
+  let jm := jobj j "main"
+  let jw := jobj j "worker"
+  let keys := objKeys (jobj jm "task")
+  let others := keys.filter fun k => (fixedAttrs.lookup k).isNone
+  let mainT := recOf (jobj jm "task") others
+  let workT := recOf (jobj jw "task") others
+  let fail : Option Nat := (jw.getObjValAs? Nat "failure").toOption
+  let w : WorkerSide := { task := workT, acts := actsOf jw, failure := fail }
+  let r := workerResult w
+  -- the harness may override the lists of the result dict (to probe misaligned lengths)
+  let r := if jhas j "outs" then { r with outs := jnats j "outs" } else r
+  let r := if jhas j "errs" then { r with errs := jnats j "errs" } else r
+  let m := processResultData { task := mainT, acts := actsOf jm, baseFail := none } r
+  Json.mkObj [
+    ("shipped", ofStrs (keys.filter fun k => (r.task (attrOfKey others k)).isSome)),
+    ("task", Json.mkObj (keys.map fun k => (k, toJson (m.task (attrOfKey others k))))),
+    ("acts", actsJson m.acts),
+    ("base_fail", match m.baseFail with | some f => toJson f | none => Json.null),
+    ("name", toJson r.name)]
+
+def handleDen (j : Json) : Json :=
+  let inp := Driver.Run.parseInput j
+  let n := jnat j "n"
+  let runs := (jarr j "runs").map fun r =>
+    (((jarr r "trace").filterMap Driver.Run.parseEv), jnat r "exit", jbool r "complete")
+  let nocalc := (List.range n).all fun t => (inp.calcDep t).isEmpty
+  let dens := (List.range n).map (denF inp (n + 1))
+  let cl := denClosure inp n
+  let determined := cl.all fun t => !(denF inp (n + 1) t).isBot
+  let mons := runs.map fun (tr, ex, c) => Json.bool (monC08Den inp n tr ex c)
+  let pairs := match runs with
+    | [] => []
+    | (tr0, ex0, _) :: rest => rest.map fun (tr, ex, _) => Json.bool (monC08Pair n tr0 tr ex0 ex)
+  let reports := runs.map fun (tr, _, _) => mkArr ((List.range n).map fun t => optDenJson (reportOf tr t))
+  Json.mkObj [
+    ("den", ofStrs (dens.map denStr)),
+    ("closure", ofNats cl),
+    ("exit", toJson (denExit inp n)),
+    ("nocalc", Json.bool nocalc),
+    ("determined", Json.bool determined),
+    ("mon_den", mkArr mons),
+    ("mon_pair", mkArr pairs),
+    ("reports", mkArr reports)]
+
+def handle (j : Json) : Json :=
+  match jstr j "op" with
+  | "den" => handleDen j
+  | "data" => handleData j
+  | _ => Driver.err "c08: unknown op"
+
 end Driver.P08
